@@ -6,7 +6,7 @@
    EXPLORATION (the correspondence in harness/c13.py against the shipped XSD documents) for what the
    schemas add beyond the class tables and for the builders that are not modelled. *)
 From Coq Require Import String List Bool NArith.
-From Verif Require Import Base.Str C13.Model C13.Spec C13.Builders C13.Proofs C13.SpecProofs C13.Lex C13.BuilderProofs.
+From Verif Require Import Base.Str C13.Model C13.Spec C13.Builders C13.Proofs C13.SpecProofs C13.Lex C13.BuilderProofs C13.Extra C13.ExtraProofs.
 From VerifGen Require Import C13Tables.
 Import ListNotations.
 
@@ -136,3 +136,97 @@ Theorem c13_name_id_mapping_response_v0_never_valid :
     valid live_table (CK k_samlp_NameIDMappingResponse) (to_tree live_table o) = false.
 Proof. exact name_id_mapping_response_v0_invalid. Qed.
 Print Assumptions c13_name_id_mapping_response_v0_never_valid.
+
+(* ==== beyond the class tables (Extra.v): xs:ID uniqueness, the types named by xsi:type, choice groups ==== *)
+
+(* the boolean that Coq evaluates on the implementation's output is "no xs:ID value occurs twice" *)
+Theorem c13_ids_unique_reflect : forall T I t, ids_unique T I t = true <-> NoDup (doc_ids T I t).
+Proof. exact ids_unique_iff. Qed.
+Print Assumptions c13_ids_unique_reflect.
+
+(* ---- create_name_id_mapping_request: valid, and exactly ONE of BaseID / NameID / EncryptedID whatever
+   combination of name_id, base_id, encrypted_id the caller supplies (the schema's xs:choice) *)
+Theorem c13_name_id_mapping_request_valid :
+  forall a o, nim_ok a -> name_id_mapping_request a = Some o -> spec live_table (to_tree live_table o).
+Proof. exact name_id_mapping_request_valid. Qed.
+Print Assumptions c13_name_id_mapping_request_valid.
+
+Theorem c13_name_id_mapping_request_one_identifier :
+  forall a o, nim_ok a -> name_id_mapping_request a = Some o -> root_choices_ok (to_tree live_table o) = true.
+Proof. exact name_id_mapping_request_one_identifier. Qed.
+Print Assumptions c13_name_id_mapping_request_one_identifier.
+
+Theorem c13_logout_request_one_identifier :
+  forall a o, obs_ok (lr_ob a) -> opt_lexb LDateTime (lr_expire a) = true -> opt_ext_ok (lr_extensions a) = true ->
+              opt_valid k_saml_NameID (lr_name_id a) = true ->
+              logout_request a = Some o -> root_choices_ok (to_tree live_table o) = true.
+Proof. exact logout_request_one_identifier. Qed.
+Print Assumptions c13_logout_request_one_identifier.
+
+(* ---- create_manage_name_id_request: valid, exactly one of NameID / EncryptedID and exactly one of
+   NewID / NewEncryptedID / Terminate for every combination of the five arguments *)
+Theorem c13_manage_name_id_request_valid :
+  forall a o, mni_ok a -> manage_name_id_request a = Some o -> spec live_table (to_tree live_table o).
+Proof. exact manage_name_id_request_valid. Qed.
+Print Assumptions c13_manage_name_id_request_valid.
+
+Theorem c13_manage_name_id_request_one_of_each :
+  forall a o, mni_ok a -> manage_name_id_request a = Some o -> root_choices_ok (to_tree live_table o) = true.
+Proof. exact manage_name_id_request_one_of_each. Qed.
+Print Assumptions c13_manage_name_id_request_one_of_each.
+
+(* ---- create_attribute_query from the `attribute` dictionary itself (s_utils.do_attributes / do_attribute / do_ava,
+   AttributeValue.set_text / set_type): structurally valid for every dictionary whose keys name the attribute ... *)
+Theorem c13_attribute_query_s_valid :
+  forall a specs o, obs_ok (aq_ob a) -> opt_ext_ok (aq_extensions a) = true ->
+                    valid live_table (CK k_saml_NameID) (aq_name_id a) = true -> keys_named specs = true ->
+                    attribute_query_s a specs = Some o -> spec live_table (to_tree live_table o).
+Proof. exact attribute_query_s_valid. Qed.
+Print Assumptions c13_attribute_query_s_valid.
+
+(* ... every xsi:type names an existing built-in type (the prefix the caller used is declared: "xs:" and "xsd:"
+   alike) of which the value has the lexical form, for ALL legal values - a list of two values and a str of two
+   characters included (as coded since fix bf274fc5) ... *)
+Theorem c13_do_attributes_typed :
+  forall specs objs, do_attributes specs = Some objs -> forallb (fun ks => spec_legal (snd ks)) specs = true ->
+                     forallb (fun o => xsi_ok (to_tree live_table o)) objs = true.
+Proof. exact do_attributes_typed. Qed.
+Print Assumptions c13_do_attributes_typed.
+
+(* ... a plain value (not a tuple) is never given a type, whatever its length *)
+Theorem c13_do_attributes_plain_untyped : forall v, snd (unpack (SPlain v)) = ""%string.
+Proof. exact do_attribute_plain_untyped. Qed.
+Print Assumptions c13_do_attributes_plain_untyped.
+
+(* ... the pinned code read a plain value of exactly two items as (value, type): refuted (finding C13-F8, repaired by bf274fc5) *)
+Theorem c13_do_attributes_misread_v0_refuted :
+  exists k sp o, misread sp = true /\ forallb (legal_typed "") (aval_texts (match sp with SPlain v => v | STuple v _ => v end)) = true
+                 /\ do_attribute_v0 k sp = Some o /\ owf live_table o = true /\ xsi_ok (to_tree live_table o) = false.
+Proof. exact do_attributes_misread_v0_refuted. Qed.
+Print Assumptions c13_do_attributes_misread_v0_refuted.
+
+(* ---- create_authn_query_response (as coded since fix 8ef9e86e: message_args() per assertion): every assertion carries
+   the identifier drawn for it; pairwise different draws give pairwise different Assertion/@ID values *)
+Theorem c13_authn_query_response_own_ids_unique :
+  forall e inst subj l, NoDup (map (fun p => xtrim (fst p)) l) -> NoDup (map own_id (aqr_assertions e inst subj l)).
+Proof. exact aqr_own_ids_unique. Qed.
+Print Assumptions c13_authn_query_response_own_ids_unique.
+
+Theorem c13_authn_query_response_sample_ok :
+  exists o, response (sample_rs sample_asserts) = Some o /\ doc_ok (to_tree live_table o) = true.
+Proof. exact authn_query_response_sample_ok. Qed.
+Print Assumptions c13_authn_query_response_sample_ok.
+
+(* ... the pinned code shared one message_args() among all assertions (finding C13-F9, repaired by 8ef9e86e) *)
+Theorem c13_authn_query_response_ids_v0_never_unique :
+  forall e id inst subj s1 s2 more,
+    nodupb (flat_map assertion_ids (aqr_assertions_v0 e id inst subj (s1 :: s2 :: more))) = false.
+Proof. exact aqr_v0_ids_never_unique. Qed.
+Print Assumptions c13_authn_query_response_ids_v0_never_unique.
+
+Theorem c13_authn_query_response_ids_v0_refuted :
+  exists o, obs_ok (rs_ob (sample_rs sample_asserts_v0)) /\ response (sample_rs sample_asserts_v0) = Some o
+            /\ valid_doc live_table (to_tree live_table o) = true
+            /\ ids_unique live_table live_ids (to_tree live_table o) = false.
+Proof. exact authn_query_response_ids_v0_refuted. Qed.
+Print Assumptions c13_authn_query_response_ids_v0_refuted.
